@@ -22,11 +22,32 @@ NEEDS = {
  "C17": "a YAML run_space block that spells out max_runs / dry_run and a CLI flag asking for something different",
  "C18": "an executor that outlives a single run (reused Pipeline, launch, queue worker)",
 }
+NEEDS.update({
+ "C01b": "same idea as C01 (defaults memoised by module.qualname), found independently in round 2",
+ "C02b": "[default-use, require, delete:k] or [require, delete:k, default-use, re-create k]: the deleted-key test evaluated at end of pipeline",
+ "C03b": "combinatorial sweep with a from_context variable whose name sorts before a static variable, both with more than one value",
+ "C04b": "two combinatorial sweeps differing only in `broadcast` built in one interpreter (class cache keyed by the effective flag)",
+ "C05b": "sweep value lists equal under == but of different type ([1,2] vs [1.0,2.0], [0,1] vs [False,True]) built in one process",
+ "C06b": "a run failing on an unresolvable parameter: parameter_sources gets the value 'required', not allowed by the SER schema",
+ "C07b": "a context key holding None for a parameter that has a signature default",
+ "C08b": "a source column renamed onto the name of another selected column that is not itself renamed",
+ "C09b": "a traced launch with --run-space-attempt >= 2 (run_space_end always stamped attempt 1)",
+ "C10b": "one orchestrator object shared by several Pipelines with different sweeps of the same kind",
+ "C11b": "the same expression text compiled first with a larger variable set, then with a smaller one, on one evaluator / via the sweep factory",
+ "C13b": "run_space_end ingested while its launch has no run attached yet (ls, le, then the pipeline_start records)",
+ "C12b": "a comparison in the expression: Compare.ops are dropped from the signature, so a<b and a>=b collide and the signature no longer rebuilds",
+ "C14b": "a subscriber draining a channel to empty while a publisher has already fetched that channel's deque (entry removed on drain)",
+ "C15b": "a pattern scan deleting an empty matching channel while publish() sits between entry creation and append; the job's completion message is lost and its Future never resolves",
+ "C16b": "two generated classes with equal module.qualname registered in one process (registry de-duplicates by name, keeps the first)",
+ "C17b": "--run-space-max-runs 0 (or max_runs: 0 in YAML) with a non-empty plan: `or 1000` swallows the zero cap",
+ "C18b": "one orchestrator executing more than one run (reused Pipeline, launch): per-run processor instances retained by a memo keyed on the instance",
+})
 CAUGHT = {
  "C15": "C14 quick and C15 quick (after adding random line-boundary yields to C15)",
  "C05": "C05 quick (after adding + <-> * expression mutations) and C12 quick",
 }
-STRENGTHENED = {"C03", "C04", "C05", "C07", "C08", "C15", "C17"}
+CAUGHT.update({"C07b": "C07 quick and C01 quick (after None-valued context entries were added to the model)"})
+STRENGTHENED = {"C03", "C04", "C05", "C07", "C08", "C15", "C17", "C05b", "C07b", "C10b", "C11b"}
 for pid in sorted(os.listdir(os.path.join(HERE, "seeded"))):
     d = os.path.join(HERE, "seeded", pid)
     vf = os.path.join(d, "verify.json")
@@ -34,7 +55,9 @@ for pid in sorted(os.listdir(os.path.join(HERE, "seeded"))):
     notes = open(os.path.join(d, "NOTES.md")).read() if os.path.exists(os.path.join(d, "NOTES.md")) else ""
     first = next((l.strip() for l in notes.splitlines() if l.strip() and not l.startswith("#")), "")
     meta = {
-        "property": pid,
+        "property": pid[:3],
+        "check": pid[:3],
+        "round": 2 if len(pid) > 3 else 1,
         "origin": "fresh sub-agent given only the property text and a scratch worktree" + (" (plus the note that registry growth is already known)" if pid == "C18" else ""),
         "summary": first[:300],
         "needs_to_manifest": NEEDS.get(pid, ""),
@@ -43,8 +66,8 @@ for pid in sorted(os.listdir(os.path.join(HERE, "seeded"))):
         "demo_exit_without_change": ver.get("demo_exit_without_change"),
         "demo_exit_with_change": ver.get("demo_exit_with_change"),
         "existing_tests_with_change": ver.get("tests_with_change"),
-        "ran": [f"git -C /repo apply seeded/{pid}/patch.diff", f"./check {pid} --tier quick   (exit 1, VIOLATION lines)", "git -C /repo checkout -- ."],
-        "caught_by": CAUGHT.get(pid, f"{pid} quick"),
+        "ran": [f"selftest/run_on_seed.sh {pid} {pid[:3]} quick   (patch applied in a scratch worktree, semantiva imported from it; exit 1, VIOLATION lines)"],
+        "caught_by": CAUGHT.get(pid, f"{pid[:3]} quick"),
         "check_strengthened_to_catch_it": pid in STRENGTHENED,
     }
     json.dump(meta, open(os.path.join(d, "meta.json"), "w"), indent=1)
